@@ -45,7 +45,8 @@ META = dict(
              "registers wider than 4 qubits when update and rebuild give different gate lists: not decided (numeric replay only)",
              "QMF/QCC/ILC generator screening (DIS/ACS construction) runs on concrete Hamiltonians; only the parameters are symbolic",
              "which molecule: the checks use H2, H2+, H4 in sto-3g; other molecules only change the sizes"],
-    stubs=[], trusted_base=["documented gate matrices in symx.refsem", "PySCF mean-field used to construct the molecules (only sizes / "
+    stubs=["PySCF integrals of the fixed molecules are computed once in the parent process and served from a cache "
+           "(harness.c07._CachedIntegrals); no Tangelo code is replaced"], trusted_base=["documented gate matrices in symx.refsem", "PySCF mean-field used to construct the molecules (only sizes / "
                             "occupations and, for VSQS/QMF/QCC, concrete Hamiltonian coefficients are read)"],
 )
 
@@ -75,8 +76,27 @@ def mol(key):
             m = M(XYZ_H4, q=1, spin=1, basis="sto-3g")
         else:
             raise KeyError(key)
+        m.solver = _CachedIntegrals(m.solver, m)
         _MOL[key] = m
     return _MOL[key]
+
+
+class _CachedIntegrals:
+    """the molecule's PySCF integral solver, with the (parameter-independent) integrals computed ONCE in the parent
+    process: PySCF's OpenMP kernels must not be entered in forked workers"""
+
+    def __init__(self, solver, molecule):
+        self._solver = solver
+        self._cached = solver.get_integrals(molecule, None)
+
+    def get_integrals(self, molecule, mo_coeff=None):
+        import copy
+        if mo_coeff is None:
+            return copy.deepcopy(self._cached)
+        return self._solver.get_integrals(molecule, mo_coeff)
+
+    def __getattr__(self, k):
+        return getattr(self._solver, k)
 
 
 def preload():
@@ -115,10 +135,11 @@ def _qop(terms):
     return op
 
 
-# rational-coefficient toy Hamiltonians (exact in the engine)
-H_FINAL2 = [("Z0", 0.5), ("Z1", -0.25), ("X0 X1", 0.75), ("Z0 Z1", 0.125)]
-H_INIT2 = [("Z0", 0.5), ("Z1", -0.5)]
-H_NAV2 = [("Y0 Y1", 0.25), ("X0", -0.125)]
+# toy Hamiltonians with integer coefficients (with time = intervals, i.e. dt = 1, every rotation angle is a small
+# integer multiple of the parameter: exact and cheap for the solver)
+H_FINAL2 = [("Z0", 1.), ("Z1", -1.), ("X0 X1", 2.), ("Z0 Z1", 1.)]
+H_INIT2 = [("Z0", 1.), ("Z1", -2.)]
+H_NAV2 = [("Y0 Y1", 1.), ("X0", -1.)]
 H_QCC4 = [("Z0", 0.5), ("Z1", 0.5), ("Z2", -0.25), ("Z3", -0.25), ("Z0 Z2", 0.125), ("X0 X1 Y2 Y3", 0.0625),
           ("Y0 X1 X2 Y3", -0.0625), ("X0 Y1", 0.03125), ("X2 Y3", 0.03125), ("Y0 Y1 X2 X3", 0.0625)]
 
@@ -161,7 +182,8 @@ def make(kind, cfg):
             return VSQS(mol(c["mol"]), mapping=c["mapping"], up_then_down=c["utd"], intervals=c["intervals"], trotter_order=c["order"])
         from tangelo.linq import Circuit, Gate
         return VSQS(qubit_hamiltonian=_qop(H_FINAL2), h_init=_qop(H_INIT2), reference_state=Circuit([Gate("X", 1)], n_qubits=2),
-                    h_nav=_qop(H_NAV2) if c.get("nav") else None, intervals=c["intervals"], trotter_order=c["order"], time=c.get("time", 1.))
+                    h_nav=_qop(H_NAV2) if c.get("nav") else None, intervals=c["intervals"], trotter_order=c["order"],
+                    time=float(c["intervals"]))
     if kind == "qmf":
         from tangelo.toolboxes.ansatz_generator.qmf import QMF
         return QMF(mol(c["mol"]), mapping=c["mapping"], up_then_down=c["utd"])
@@ -610,7 +632,7 @@ def configs(tier):
         for nav in (False, True):
             out.append(("vsqs", dict(intervals=2, order=order, nav=nav), 1, 4, False))
     out.append(("vsqs", dict(intervals=3, order=1, nav=False), 1, 3, False))
-    out.append(("vsqs", dict(intervals=3, order=2, nav=True, time=2.), 0, 3, False))
+    out.append(("vsqs", dict(intervals=3, order=2, nav=True), 0, 3, False))
     out.append(("vsqs", dict(mol="H2", mapping="jw", utd=False, intervals=2, order=1), 0, 2, False))
     out.append(("vsqs", dict(mol="H2", mapping="scbk", utd=True, intervals=3, order=2), 0, 2, False))
     for mp, utd in (("jw", False), ("bk", True), ("scbk", True)):
